@@ -218,14 +218,14 @@ static inline uint32_t debugInfoMap_lookup(const DebugEntry *e) { return e->seco
 """
 
 
-def unit_text(chk, with_trace=False, with_load=False, lookup_contract=True, ctor=False):
+def unit_text(chk, with_trace=False, with_load=False, lookup_contract=True, ctor=False, accessors=None):
     m = chk.manifest
     en, _ = asmx.enums(m)
     fld, names = simx.fields(m)
     io, in_ty = simx.io_fns(m)
     sysc = simx.syscall_fn(m, in_ty)
     cond, step, ret = simx.run_parts(m)
-    text = PRELUDE.replace('#include "isa.h"\n', '#include "isa.h"\n' + en, 1) + fld + ACCESSORS + io + sysc
+    text = PRELUDE.replace('#include "isa.h"\n', '#include "isa.h"\n' + en, 1) + fld + (accessors or ACCESSORS) + io + sysc
     if with_trace:
         text += TRACE_GHOST + simx.lookupSymbol_fn(m, lookup_contract) + simx.trace_fns(m) + "#define WITH_TRACE 1\n"
     if ctor:
